@@ -52,6 +52,10 @@ fn read_frame(body: &[u8], header_mode: bool, cache: &mut ReceiverCache) -> Resu
 
 /// LOCAL_EXT wrapped pid as it would arrive from a peer (so that it carries raw bytes).
 fn local_pid(rng: &mut Rng, node: &str, id: u32) -> (ExternalPid, Vec<u8>) {
+    local_pid_of(rng, node, id, 0, 5)
+}
+
+fn local_pid_of(rng: &mut Rng, node: &str, id: u32, serial: u32, creation: u32) -> (ExternalPid, Vec<u8>) {
     let mut b = vec![131u8, 121];
     let hash = rng.bytes(8);
     b.extend_from_slice(&hash);
@@ -60,11 +64,11 @@ fn local_pid(rng: &mut Rng, node: &str, id: u32) -> (ExternalPid, Vec<u8>) {
     b.push(node.len() as u8);
     b.extend_from_slice(node.as_bytes());
     b.extend_from_slice(&id.to_be_bytes());
-    b.extend_from_slice(&0u32.to_be_bytes());
-    b.extend_from_slice(&5u32.to_be_bytes());
+    b.extend_from_slice(&serial.to_be_bytes());
+    b.extend_from_slice(&creation.to_be_bytes());
     match erltf::decode(&b) {
         Ok(OwnedTerm::Pid(p)) => (p, b[1..].to_vec()),
-        _ => (ExternalPid::new(Atom::new(node), id, 0, 5), vec![]),
+        _ => (ExternalPid::new(Atom::new(node), id, serial, creation), vec![]),
     }
 }
 
@@ -137,11 +141,38 @@ async fn single_ops(ctx: &Ctx, rng: &mut Rng, epmd: &net::EpmdTable, header_mode
     let mut cache = ReceiverCache::default();
     let peer_node = format!("{}@127.0.0.1", name);
     let n_ops = ctx.pick(40usize, 400usize);
+    // histories matter: the same operation again, the same destination again, and the same destination in its
+    // other wire form (an `==` pid that must nevertheless be written differently). The plan starts with every
+    // operation issued to a fresh destination, to its twin in the other form (twice: both directions), to the
+    // same destination again, and to the twin once more after an unrelated operation; random histories follow.
+    let mut plan: Vec<(usize, usize)> = Vec::new();
+    for op in 0..6 {
+        plan.extend_from_slice(&[(op, 5), (op, 1), (op, 1), (op, 0), ((op + 1) % 6, 5), (op, 1)]);
+    }
+    let mut last_op = 0usize;
     for k in 0..n_ops {
+        let op = if rng.chance(1, 3) { last_op } else { k % 6 };
+        last_op = op;
+        plan.push((op, rng.below(6)));
+    }
+    let mut last_to_by_op: HashMap<usize, (ExternalPid, Vec<u8>)> = HashMap::new();
+    for (k, (op, sticky)) in plan.into_iter().enumerate() {
         let uid = (round as u64) * 100_000 + k as u64 + 1;
-        let op = k % 6;
+        let last_to = last_to_by_op.get(&op).cloned();
         // argument classes
-        let (to_pid, to_raw) = if rng.chance(1, 3) { local_pid(rng, &peer_node, uid as u32) } else { (ExternalPid::new(Atom::new(&peer_node), *rng.pick(&[0u32, 1, 32767, u32::MAX]), *rng.pick(&[0u32, 8191, u32::MAX]), *rng.pick(&[1u32, 4, u32::MAX])), vec![]) };
+        let (to_pid, to_raw) = if let (Some((lp, lraw)), true) = (&last_to, sticky < 3) {
+            match sticky {
+                0 => (lp.clone(), lraw.clone()),
+                _ => {
+                    if lraw.is_empty() {
+                        local_pid_of(rng, lp.node.as_str(), lp.id, lp.serial, lp.creation)
+                    } else {
+                        (ExternalPid::new(lp.node.clone(), lp.id, lp.serial, lp.creation), vec![])
+                    }
+                }
+            }
+        } else if rng.chance(1, 3) { local_pid(rng, &peer_node, uid as u32) } else { (ExternalPid::new(Atom::new(&peer_node), *rng.pick(&[0u32, 1, 32767, u32::MAX]), *rng.pick(&[0u32, 8191, u32::MAX]), *rng.pick(&[1u32, 4, u32::MAX])), vec![]) };
+        last_to_by_op.insert(op, (to_pid.clone(), to_raw.clone()));
         let from_pid = ExternalPid::new(Atom::new("rust@127.0.0.1"), uid as u32, 0, 9);
         let reference = ExternalReference::new(Atom::new("rust@127.0.0.1"), 9, vec![uid as u32, 2, 3][..1 + rng.below(3)].to_vec());
         let pidv = |p: &ExternalPid| val_of(&OwnedTerm::Pid(p.clone()));
@@ -183,7 +214,9 @@ async fn single_ops(ctx: &Ctx, rng: &mut Rng, epmd: &net::EpmdTable, header_mode
         };
         ctx.eval(1);
         let mode = if header_mode { "header" } else { "pass-through" };
-        ctx.class(&format!("single/{}/{}/{}", mode, issued.op, if issued.must_contain.is_empty() { "plain-pid" } else { "local-pid" }));
+        ctx.class(&format!("single/{}/{}/{}/{}", mode, issued.op, if issued.must_contain.is_empty() { "plain-pid" } else { "local-pid" }, match sticky { 0 => "same-destination-again", 1 | 2 => "same-destination-other-form", _ => "fresh-destination" }));
+        // a plain pid must be written plainly: no LOCAL_EXT tag in front of it
+        let must_not_be_local = issued.must_contain.is_empty() && matches!(issued.op, "send" | "link" | "unlink" | "monitor" | "demonitor");
         let wit = |d: serde_json::Value| json!({"op": issued.op, "mode": mode, "uid": issued.uid, "expected_control": issued.expect_control.show(), "detail": d});
         if let Err(e) = res {
             ctx.viol(&format!("C07:operation-failed:{}:{}", issued.op, mode), "a send-side operation failed on a connected connection", wit(json!({"error": e.to_string()})));
@@ -219,6 +252,15 @@ async fn single_ops(ctx: &Ctx, rng: &mut Rng, epmd: &net::EpmdTable, header_mode
                     (None, None) => {}
                     (Some(a), Some(b)) if a.same(b) => {}
                     _ => ctx.viol(&format!("C07:payload:{}:{}", issued.op, mode), "the payload on the wire is not the given payload", wit(json!({"got": p.as_ref().map(|x| x.show()), "want": issued.expect_payload.as_ref().map(|x| x.show())}))),
+                }
+                if must_not_be_local && !header_mode {
+                    // none of the arguments was in node-local form: the control term must not contain a LOCAL_EXT wrapper
+                    let mut strict = Reader::new(&body[1..]);
+                    strict.allow_local = false;
+                    let _ = strict.u8();
+                    if let Err(crate::refmodel::decode::RefErr::BadTag(121)) = strict.term(0) {
+                        ctx.viol(&format!("C07:plain-id-written-in-another-form:{}:{}", issued.op, mode), "an ordinary identifier was written in node-local form although the argument given was not", wit(json!({"frame": hex_cap(&body, 96)})));
+                    }
                 }
                 if !issued.must_contain.is_empty() && !body.windows(issued.must_contain.len()).any(|w| w == &issued.must_contain[..]) {
                     ctx.viol(&format!("C07:node-local-id-not-verbatim:{}:{}", issued.op, mode), "a node-local identifier was not written back byte-for-byte", wit(json!({"raw": hex_cap(&issued.must_contain, 48), "frame": hex_cap(&body, 96)})));
